@@ -1,0 +1,35 @@
+//! C25 — observation of the net-report lock of `DirectAddrUpdateState`
+//! (`socket.rs`).
+//!
+//! `DirectAddrUpdateState::new` registers a weak reference to the
+//! `Arc<AsyncMutex<net_report::Client>>` it is given.  The lock is only ever
+//! taken with `try_lock_owned`, whose guard holds a clone of the `Arc`; the
+//! state itself holds one.  So "a guard is alive" is observable without
+//! touching the lock: the strong count is above one.
+use std::sync::{Arc, Mutex, Weak};
+
+use tokio::sync::Mutex as AsyncMutex;
+
+use crate::net_report;
+
+static REPORTER: Mutex<Option<Weak<AsyncMutex<net_report::Client>>>> = Mutex::new(None);
+
+/// Called from `DirectAddrUpdateState::new`; the latest registration wins.
+pub(crate) fn register(reporter: &Arc<AsyncMutex<net_report::Client>>) {
+    *REPORTER.lock().unwrap() = Some(Arc::downgrade(reporter));
+}
+
+/// Whether a guard of the most recently created reporter lock is alive.
+/// `None`: nothing registered, or the state was dropped.
+///
+/// Only meaningful while the socket actor is not inside
+/// `schedule_run`/`try_run` (which clone the `Arc` for the duration of the
+/// `try_lock_owned` call).
+pub fn reporter_held() -> Option<bool> {
+    let guard = REPORTER.lock().unwrap();
+    let weak = guard.as_ref()?;
+    match weak.strong_count() {
+        0 => None,
+        n => Some(n > 1),
+    }
+}
